@@ -48,6 +48,8 @@ REQUIRED = [
     "external_cancel_coinciding_with_deadline",
     "recv_vs_cancel_cases",
     "recv_read_then_cancel_orders",
+    "shielded_failure_cases",
+    "shielded_operation_outlived_the_deadline",
 ]
 WATCHDOG = {"quick": 900, "thorough": 7200}
 EPS = 0.05
@@ -568,10 +570,81 @@ def run_shard(params: dict, ctx) -> None:
             ctx.violation(key, why, {"program": prog, "ext": ext, "outcome": res.get("outcome"), "trace_tail": [{k: v for k, v in e.items() if k not in ("enc",)} for e in res.get("trace", [])[-14:]]})
         if i == 0:
             ctx.sample({"program": prog, "external_cancel_at": ext, "outcome": res.get("outcome")})
+        if i % 10 == 0:
+            why = shielded_failure_case(ctx, rng)
+            if why:
+                ctx.violation("I6-leftover-after-shielded-failure", why, {"program": [], "ext": None, "shielded_failure": True})
         if i % 30 == 0:
             why = recv_vs_cancel(ctx, rng)
             if why:
                 ctx.violation("I1s-receive-completed-despite-cancel", why, {"program": [], "ext": None, "recv_vs_cancel": True})
+
+
+def shielded_failure_case(ctx, rng: random.Random) -> str | None:
+    """a shape the generated programs cannot express: the body of a move_on_after() / timeout() scope is a shielded operation
+    (ignore_cancellation) that outlives the deadline and then ends with an ordinary exception (or normally), which the body handles.
+    After the scope exits the task carries no leftover cancellation: the following checkpoints pass and cancelling() is 0."""
+    d_op = rng.choice([0.5, 1.0, 1.5])
+    d_scope = rng.choice([0.25, 0.5, 1.0, 2.0])
+    fails = rng.random() < 0.7
+    kind = rng.choice(["move_on_after", "timeout"])
+    handled_inside = rng.random() < 0.6
+    out: dict = {}
+
+    async def op():
+        await asyncio.sleep(d_op)
+        if fails:
+            raise ValueError("operation failed after the deadline")
+        return "done"
+
+    async def main(loop):
+        backend = AsyncIOBackend()
+        task = asyncio.current_task()
+
+        async def body():
+            if handled_inside:
+                try:
+                    return await backend.ignore_cancellation(op())
+                except ValueError:
+                    return "handled"
+            return await backend.ignore_cancellation(op())
+
+        try:
+            if kind == "move_on_after":
+                with backend.move_on_after(d_scope) as scope:
+                    out["body"] = await body()
+                out["caught"] = scope.cancelled_caught()
+            else:
+                try:
+                    with backend.timeout(d_scope):
+                        out["body"] = await body()
+                except TimeoutError:
+                    out["caught"] = True
+        except ValueError:
+            out["escaped"] = True
+        out["cancelling_after_exit"] = task.cancelling()
+        try:
+            for _ in range(4):
+                await asyncio.sleep(0)
+            await asyncio.sleep(0.1)
+            out["after"] = "ok"
+        except asyncio.CancelledError:
+            out["after"] = "cancelled"
+            task.uncancel()
+
+    try:
+        vloop.run(main)
+    except vloop.Quiescent as exc:
+        return f"deadlock: {exc}"
+    ctx.count("shielded_failure_cases")
+    if d_scope < d_op:
+        ctx.count("shielded_operation_outlived_the_deadline")
+    shape = f"{kind}({d_scope}) around ignore_cancellation(operation lasting {d_op}, {'raising ValueError' if fails else 'returning'}{', handled in the body' if handled_inside else ''})"
+    if out.get("after") != "ok":
+        return f"{shape}: a stray CancelledError hit the task at a checkpoint after the scope had exited (leftover cancellation request)"
+    if out.get("cancelling_after_exit"):
+        return f"{shape}: task.cancelling() == {out['cancelling_after_exit']} right after the scope exited"
+    return None
 
 
 def recv_vs_cancel(ctx, rng: random.Random) -> str | None:
